@@ -131,6 +131,49 @@ inline void world_canon(std::string &out) {
 	out += buf;
 }
 
+
+// ---------------------------------------------------------------------------------------------
+// Memory-graph canonical form.  Public observations cannot see hidden fields (a private capacity, an
+// engaged flag, a stale pointer), so two states that look equal from outside may have different
+// futures once a defect is present.  graph_canon() therefore emits the raw object representation of
+// the root objects and of every tracked heap block reachable from them, with every word that points
+// into a root or into a tracked block replaced by (target, offset), targets numbered in discovery
+// order.  Equal output => identical memory up to the addresses malloc happened to return => identical
+// futures.  Stale bytes (destroyed elements, unused capacity) only make the form finer.
+struct GraphCanon {
+	std::vector<std::pair<const unsigned char *, size_t>> roots;
+	void root(const void *p, size_t n) { roots.push_back({(const unsigned char *)p, n}); }
+	void emit(std::string &out) {
+		std::map<const void *, int> rank;
+		std::vector<std::pair<const unsigned char *, size_t>> work;
+		auto region = [&](const unsigned char *p, size_t n) {
+			size_t off = 0;
+			for(; off + 8 <= n; off += 8) {
+				uintptr_t w; memcpy(&w, p + off, 8);
+				bool done = false;
+				for(size_t r = 0; r < roots.size() && !done; r++)
+					if(w >= (uintptr_t)roots[r].first && w < (uintptr_t)roots[r].first + roots[r].second) { out.push_back('S'); out.push_back((char)r); uint32_t o = (uint32_t)(w - (uintptr_t)roots[r].first); out.append((const char *)&o, 4); done = true; }
+				if(done) continue;
+				auto &blocks = heap().blocks;
+				auto it = blocks.upper_bound((void *)w);
+				if(w && it != blocks.begin()) {
+					--it;
+					if(w >= (uintptr_t)it->first && w <= (uintptr_t)it->first + it->second) {
+						auto ins = rank.insert({it->first, (int)rank.size()});
+						if(ins.second) work.push_back({(const unsigned char *)it->first, it->second});
+						out.push_back('P'); int rk = ins.first->second; out.append((const char *)&rk, 4); uint32_t o = (uint32_t)(w - (uintptr_t)it->first); out.append((const char *)&o, 4);
+						continue;
+					}
+				}
+				out.push_back('R'); out.append((const char *)&w, 8);
+			}
+			if(off < n) { out.push_back('T'); out.append((const char *)p + off, n - off); }
+		};
+		for(size_t r = 0; r < roots.size(); r++) { out.push_back('{'); region(roots[r].first, roots[r].second); out.push_back('}'); }
+		for(size_t i = 0; i < work.size(); i++) { out.push_back('['); uint32_t n = (uint32_t)work[i].second; out.append((const char *)&n, 4); region(work[i].first, work[i].second); out.push_back(']'); }
+	}
+};
+
 inline void world_reset() {
 	life().clear();
 	heap().clear();
